@@ -35,6 +35,9 @@ PROFILES = {
                               bin_ops=('Conjunction', 'Disjunction')),
     'identity-heavy': gen.Profile(w_atom=1, w_pred=8, w_ident=7, w_neg=4, w_assert=0, w_bin=3, w_modal=2, w_quant=1, max_depth=2,
                                   preds=((1, 0, 2), (0, 0, 1), (2, 0, 3)), consts=(A.const(0), A.const(1), A.const(2))),
+    # quantifiers under modal operators and the other way round (first-order modal logics only)
+    'first-order-modal': gen.Profile(w_atom=1, w_pred=8, w_ident=0, w_neg=3, w_assert=0, w_bin=3, w_modal=9, w_quant=9, max_depth=3,
+                                     preds=((0, 0, 1), (1, 0, 2)), consts=(A.const(0), A.const(1))),
     'quant-heavy': gen.Profile(w_atom=2, w_pred=7, w_ident=1, w_neg=3, w_assert=0, w_bin=5, w_modal=2, w_quant=8, max_depth=3,
                                consts=(A.const(3), A.const(0, 1))),
 }
@@ -200,8 +203,10 @@ def run_shard(shard, acc):
               phases=[Phase.generate], suppress_health_check=list(HealthCheck))
     @given(st.data())
     def body(data):
-        pname = ('generic', 'modal-heavy', 'modal-heavy', 'quant-heavy', 'identity-heavy', 'modal-deep')[data.draw(st.integers(0, 5))]
-        if pname in ('modal-heavy', 'modal-deep'):
+        pname = ('generic', 'modal-heavy', 'modal-heavy', 'quant-heavy', 'identity-heavy', 'modal-deep', 'first-order-modal')[data.draw(st.integers(0, 6))]
+        if pname == 'first-order-modal':
+            logic = data.draw(gen.logic_name(lambda n: R.is_modal(n) and R.is_quantified(n)))
+        elif pname in ('modal-heavy', 'modal-deep'):
             logic = data.draw(gen.logic_name(R.is_modal))
         elif pname == 'identity-heavy':
             logic = data.draw(gen.logic_name(R.is_classical))
